@@ -364,6 +364,19 @@ def main(argv):
         seed = int(os.environ.get("VERIF_SEED", "1"))
     except ValueError:
         seed = 1
+    if a.replay:
+        # a replay re-runs the whole check at the tier and seed the replay file was written at: every
+        # suite is a deterministic function of (tier, seed, /repo), so the recorded failing input (or the
+        # recorded broken obligation) is re-evaluated against the current tree together with its neighbours
+        try:
+            rep0 = json.load(open(a.replay))
+            if rep0.get("tier") in ("quick", "thorough"):
+                tier = rep0["tier"]
+            if isinstance(rep0.get("seed"), int):
+                seed = rep0["seed"]
+        except (OSError, ValueError) as e:
+            print("cannot read replay file %s: %s" % (a.replay, e))
+            return 2
     cfg = PROPS[pid]
     t0 = time.time()
     log = []
@@ -391,7 +404,7 @@ def main(argv):
     suites = []
     if not any(k == "harness-build" for k, _ in problems):
         for s in cfg["suites"]:
-            suites.append(run_suite(pid, s, tier, seed, workdir, log, replay=a.replay))
+            suites.append(run_suite(pid, s, tier, seed, workdir, log))
 
     known = load_known()
     known_hits, new_fails = [], []
@@ -457,14 +470,14 @@ def main(argv):
     rp = os.path.join(workdir, "replay.json")
     if new_fails:
         f = new_fails[0][0]
-        rep = {"property": pid, "kind": f["kind"], "desc": f["desc"], "input": f["input"],
+        rep = {"property": pid, "tier": tier, "seed": seed, "kind": f["kind"], "desc": f["desc"], "input": f["input"],
                "how": "./check %s --replay %s" % (pid, rp),
                "also": [x[0] for x in new_fails[1:10]], "broken": [{"kind": k, "text": t[:1500]} for k, t in problems]}
         with open(rp, "w") as fh:
             json.dump(rep, fh, indent=1)
         print("VIOLATION property=%s replay=%s" % (pid, rp))
     else:
-        rep = {"property": pid, "kind": "no-failing-input-found",
+        rep = {"property": pid, "tier": tier, "seed": seed, "kind": "no-failing-input-found",
                "broken": [{"kind": k, "text": t[:4000]} for k, t in problems],
                "undischarged_theorems": audit["failed"],
                "note": "a proof obligation, the translator or the model/implementation correspondence no longer checks; "
